@@ -130,6 +130,11 @@ class Ctx:
         """Report a failing case.  A case whose *signature* is listed in
         known_findings.json is counted and the search goes on; anything else
         raises :class:`Violation`."""
+        if signature and os.environ.get("VERIF_COLLECT") == "1":
+            # triage mode (never used by registered commands): tally every signature, keep searching
+            self.known_hits["COLLECT " + signature] += 1
+            self.known_examples.setdefault("COLLECT " + signature, {"case": canon(case), "message": message})
+            return
         if signature and signature in self.accepted:
             self.known_hits[signature] += 1
             self.known_examples.setdefault(signature, {"case": canon(case), "message": message})
